@@ -75,8 +75,10 @@ def option_texts(opt, rng) -> list[tuple[str, str]]:
     elif fs in ('int_or_none_from_string', 'int_or_default'):
         for v in (0, 1, 2, 16, 30, 60, 1800, 2**31, -1, rng.randrange(10**6)):
             out.append(('int', str(v)))
+        if fs == 'int_or_none_from_string':
+            out += [('none', 'none'), ('none', '')]          # "no value": overrides a default
     elif fs == 'float_or_none_from_string':
-        pass
+        out += [('float', '0.5'), ('float', '30'), ('none', 'none'), ('none', '')]
     elif fs == 'bool_from_string':
         out += [('bool', '0'), ('bool', '1')]
     elif fs == 'unquoted_url_or_none_from_string':
@@ -131,8 +133,9 @@ def run_unit(ctx: ShardCtx, res: ShardResult) -> None:
                     continue
                 res.count('unit.roundtrips')
                 res.keys.add(f'unit|{opt.cgi_name}|{cls}')
-                # the URL builder formats whatever to_string returned with f'{name}={val}'
-                s = f'{s}'
+                # the text as the real URL builder writes it (it formats whatever to_string returned)
+                from dashlive.utils.objects import dict_to_cgi_params
+                s = dict_to_cgi_params({'k': s})[3:]
                 try:
                     v2 = opt.from_string(url_decode(s))
                 except Exception as err:
@@ -216,7 +219,7 @@ def gen_manifest_case(ctx: ShardCtx) -> dict:
         ('terr', rng.choice(['404=2', '410=1,503=3'])),
         ('vcorrupt', '00:00:20Z'),
         ('frames', str(rng.randrange(1, 6))),
-        ('leeway', str(rng.choice([0, 7, 33]))),
+        ('leeway', str(rng.choice([0, 7, 33]))), ('leeway', rng.choice(['none', ''])), ('depth', rng.choice(['none', ''])),
         ('events', rng.choice(['ping', 'scte35'])),
         ('ping__interval', str(rng.choice([100, 250]))),
         ('ping__value', rng.choice(['7', 'a b'])),
@@ -234,6 +237,7 @@ def gen_manifest_case(ctx: ShardCtx) -> dict:
         def tod() -> str:
             return (now - datetime.timedelta(seconds=rng.choice([2, 5, 9, 14, 22, 47, 200]))).strftime('%H:%M:%SZ')
         extras += [('verr', f'404={tod()}'), ('aerr', f'503={tod()}'), ('aerr', f'404={tod()},503={tod()}'),
+                   ('terr', f'404={tod()}'), ('terr', f'410={tod()},503=7'),
                    ('vcorrupt', tod()), ('vcorrupt', f'{tod()},{tod()}')]
         if rng.random() < 0.5:
             params['start'] = rng.choice(['today', 'today', 'epoch', 'month'])
@@ -418,7 +422,7 @@ def run_integration(ctx: ShardCtx, res: ShardResult) -> None:
                             continue        # removed by the manifest handler as unused for this request
                         res.count('int.fields_compared')
                         a, b = m_opts.get(full), x_opts.get(full)
-                        if full in ('videoErrors', 'audioErrors', 'videoCorruption'):
+                        if full in ('videoErrors', 'audioErrors', 'textErrors', 'videoCorruption'):
                             if a and not all(isinstance(p, int) for _, p in a) if full != 'videoCorruption' else True:
                                 continue
                             if full != 'videoCorruption':
@@ -442,7 +446,8 @@ def run_integration(ctx: ShardCtx, res: ShardResult) -> None:
                     # at that time in *this* Period's media of *this* type
                     if doc.type == 'dynamic' and rep.id in by_name:
                         qd = dict(q)
-                        for cgi, full in (('verr', 'videoErrors'), ('aerr', 'audioErrors'), ('vcorrupt', 'videoCorruption')):
+                        for cgi, full in (('verr', 'videoErrors'), ('aerr', 'audioErrors'), ('terr', 'textErrors'),
+                                          ('vcorrupt', 'videoCorruption')):
                             given = case['params'].get(cgi)
                             if not given or ':' not in given or (cgi_map[cgi].usage & use_of[ctype]) == 0:
                                 continue
